@@ -372,10 +372,8 @@ func (e *Environment) create(name string, val Object) Object {
 }
 
 func (e *Environment) update(name string, found, val Object) Object {
-	if vref, ok := val.(Reference); ok {
-		log.Debugf("Not setting %q to a reference %q", name, vref.Name)
-		val = Value(val)
-	}
+	// Never store a reference or a register (a loop's register keeps changing and is reused after the loop).
+	val = Value(val)
 	if rr, ok := found.(Reference); ok {
 		log.Debugf("SetNoChecks(%s) updating ref %s in %d", name, rr.Name, rr.RefEnv.depth)
 		e = rr.RefEnv
